@@ -328,6 +328,55 @@ theorem join_refines (O : Ops σ) (E : Env) (args : List Val) : join O E args = 
   · simp only [hu, ne_eq, not_true_eq_false, if_false, if_true]
   · simp only [hu, ne_eq, not_false_eq_true, if_true, if_false]
 
+/-! ## toLocaleString -/
+
+theorem localeElem_eq (O : Ops σ) (E : Env) (v : Val) : localeElem O E v = Spec.localeElement O E v := by
+  cases v <;> rfl
+
+theorem goJoin_snoc (a : List Nat) (l : List (List Nat)) (x sep : List Nat) :
+    goJoin (a :: (l ++ [x])) sep = (goJoin (a :: l) sep ++ sep) ++ x := by
+  rw [goJoin_foldl, goJoin_foldl, List.foldl_append]; rfl
+
+/-- the list that strings.Join receives at the end is the running string R of §15.4.4.3 step 10 -/
+theorem localeLoop_refines (O : Ops σ) (E : Env) (n : Nat) : ∀ (lo : Nat) (a : List Nat) (l : List (List Nat)) (s : σ),
+    (foldUp (localeStep O E) lo n (a :: l) >>= fun sl => (pure (Ret.val (.str (goJoin sl [44]))) : M σ Ret)) s
+    = (foldUp (Spec.localeNext O E) lo n (goJoin (a :: l) [44]) >>= fun r => (pure (Ret.val (.str r)) : M σ Ret)) s := by
+  induction n with
+  | zero => intro lo a l s; rfl
+  | succ n ih =>
+    intro lo a l s
+    simp only [foldUp, bind, M.bind, localeStep, Spec.localeNext, localeElem_eq]
+    cases h : Spec.localeElement O E (O.get s lo) s with
+    | err e s' => rfl
+    | ok x s' =>
+      have := ih (lo + 1) a (l ++ [x]) s'
+      simp only [bind, M.bind, goJoin_snoc] at this
+      simp only [pure, M.pure, List.cons_append]
+      exact this
+
+/-- **toLocaleString = §15.4.4.3** for every receiver and every argument list: the length is read, then every element
+    is read and its toLocaleString called with an empty argument list, in turn; the arguments are not used -/
+theorem toLocaleString_refines (O : Ops σ) (E : Env) (args : List Val) :
+    toLocaleStringM O E args = Spec.toLocaleStringS O E args := by
+  funext s
+  simp only [toLocaleStringM, Spec.toLocaleStringS, bind, M.bind]
+  cases hl : readLen O s with
+  | err e s' => rfl
+  | ok len s1 =>
+    simp only [toLocaleStringCore, Spec.toLocaleStringCore]
+    by_cases h0 : len = 0
+    · simp [h0]
+    · obtain ⟨m, hm⟩ : ∃ m, len = m + 1 := ⟨len - 1, by omega⟩
+      subst hm
+      simp only [Nat.add_one_ne_zero, if_false, foldUp, bind, M.bind, localeStep, localeElem_eq, Nat.add_sub_cancel]
+      cases h : Spec.localeElement O E (O.get s1 0) s1 with
+      | err e s' => rfl
+      | ok x s2 =>
+        have := localeLoop_refines O E m 1 x [] s2
+        simp only [bind, M.bind, goJoin] at this
+        simp only [pure, M.pure, List.nil_append, Nat.zero_add]
+        exact this
+
 /-! ## splice -/
 
 /-- splice = §15.4.4.12 for every receiver and every argument list except the one-argument form
@@ -641,6 +690,7 @@ def tOps : Ops (List (Option Val)) where
   lenRead := fun s => .ok () s
   conv := fun v s => .ok v s
   thisRaw := fun _ => .recv
+  locale := fun v _ s => .ok v s
 
 /-! ## sort: the result is a permutation (§15.4.4.11, first bullet of the postcondition) -/
 
@@ -836,12 +886,19 @@ def wOps : Ops W where
     | .obj id => .ok (.int 0) { s with log := [Val.obj id] :: s.log }
     | p => .ok p s
   thisRaw := fun _ => .recv
+  locale := fun v args s => .ok (.str [120]) { s with log := (v :: args) :: s.log }
 
 def E0 : Env := { pn := fun _ => .nan, ts := fun _ => [] }
 
 def retOf {σ : Type} : Res σ Ret → Option Ret
   | .ok r _ => some r
   | .err _ _ => none
+
+/-- toLocaleString: the arguments of the call do not reach the elements' toLocaleString; undefined and holes give "" -/
+theorem toLocaleString_passes_nothing :
+    (match toLocaleStringM wOps E0 [.int 5, .str [1]] ⟨3, [some (.int 1), none, some (.int 2)], [], true, false⟩ with
+      | .ok r s => (some r, s.log)
+      | .err _ s => (none, s.log)) = (some (.val (.str [44, 44])), [[.int 2], [.int 1]]) := by decide
 
 /-- splice_one_argument: [1].splice(0) — by the letter of ES5.1 nothing is removed -/
 example : retOf (splice wOps E0 [.int 0] ⟨1, [some (.int 1)], [], true, false⟩) = some (.arr [some (.int 1)])
